@@ -38,6 +38,7 @@ import (
 	"time"
 
 	"github.com/google/martian/v3"
+	"github.com/google/martian/v3/fifo"
 	"github.com/google/martian/v3/httpspec"
 	mlog "github.com/google/martian/v3/log"
 	"github.com/google/martian/v3/proxyutil"
@@ -1465,16 +1466,30 @@ type proxyWorld struct {
 	id        identity
 	seq       int64
 	refused   map[string]bool
+	closers   []io.Closer
 }
 
-func newProxyWorld() (*proxyWorld, error) {
+// close stops the world's listeners (families that build many worlds).
+func (w *proxyWorld) close() {
+	for _, c := range w.closers {
+		c.Close()
+	}
+}
+
+func newProxyWorld() (*proxyWorld, error) { return newProxyWorldWith(nil) }
+
+// newProxyWorldWith: setup may configure the proxy and populate the stack's user group before serving starts.
+func newProxyWorldWith(setup func(p *martian.Proxy, inner *fifo.Group)) (*proxyWorld, error) {
 	mlog.SetLevel(mlog.Silent)
 	o, err := newOrigin()
 	if err != nil {
 		return nil, err
 	}
 	p := martian.NewProxy()
-	stack, _ := httpspec.NewStack("martian")
+	stack, inner := httpspec.NewStack("martian")
+	if setup != nil {
+		setup(p, inner)
+	}
 	p.SetRequestModifier(stack)
 	p.SetResponseModifier(stack)
 	l, err := net.Listen("tcp", "127.0.0.1:0")
@@ -1482,7 +1497,7 @@ func newProxyWorld() (*proxyWorld, error) {
 		return nil, err
 	}
 	go p.Serve(l)
-	w := &proxyWorld{origin: o, proxyAddr: l.Addr().String(), refused: map[string]bool{}}
+	w := &proxyWorld{origin: o, proxyAddr: l.Addr().String(), refused: map[string]bool{}, closers: []io.Closer{l, o.l}}
 	// learn this instance's Via identity from what the origin receives for a plain request
 	ex := w.exchange("probe", nil, nil)
 	if len(ex.Origin) != 1 {
@@ -1569,7 +1584,15 @@ func (w *proxyWorld) exchange(id string, reqH, resH http.Header) exchangeT {
 	sb.WriteString(bodyFor(reqH))
 	ex.Sent = sb.String()
 
-	c, err := net.DialTimeout("tcp", w.proxyAddr, 10*time.Second)
+	// a connection to the in-process listener that could not be opened (seen once at load average 420: the 10 s
+	// ran out) has sent nothing: dialling again is not a retry of the case
+	var c net.Conn
+	var err error
+	for attempt := 0; attempt < 3; attempt++ {
+		if c, err = net.DialTimeout("tcp", w.proxyAddr, 10*time.Second); err == nil {
+			break
+		}
+	}
 	if err != nil {
 		ex.Outcome = "dial_error"
 		return ex
@@ -1970,7 +1993,7 @@ func replay(path string) {
 		os.Exit(2)
 	}
 	auditFamily := ""
-	for _, f := range []string{"hist", "user_group", "multi_instance", "conn_spelling", "framing_spelling", "env", "res_status", "proxy_seq", "proxy_connect", "proxy_res_status"} {
+	for _, f := range []string{"hist", "user_group", "multi_instance", "conn_spelling", "framing_spelling", "env", "res_status", "loop_inner", "proxy_seq", "proxy_connect", "proxy_res_status", "proxy_loop_inner", "proxy_mitm_plain"} {
 		if strings.HasPrefix(r.Sig, f+":") {
 			auditFamily = f
 		}
@@ -2132,7 +2155,9 @@ func main() {
 		"influence each other): hist = all interleavings of the request / response steps of 2 and 3 exchanges on one stack; user_group = the stack's inner group populated with passive / adding / failing " +
 		"modifiers; multi_instance = all paths of a request through several stack instances, identity uniqueness, SetBoundary; conn_spelling, framing_spelling, env = single messages with spellings, " +
 		"token counts and environments outside the 12 factors; proxy_seq = all sequences of 1..3 exchanges on one keep-alive client connection through the real proxy; proxy_connect = CONNECT requests " +
-		"(direct and through a downstream proxy); res_status / proxy_res_status = upstream responses of 13 statuses x fixed hop-by-hop subsets x Connection lists, on the stack and through the real proxy."
+		"(direct and through a downstream proxy); res_status / proxy_res_status = upstream responses of 13 statuses x fixed hop-by-hop subsets x Connection lists, on the stack and through the real proxy; " +
+		"loop_inner / proxy_loop_inner = the user group of the stack populated with modifiers that change the answer (status, challenge, redirect, headers, body) and / or fail x every loop spelling of the Via factor " +
+		"and controls without a loop, on the stack and through the real proxy; proxy_mitm_plain = sequences of plain HTTP requests through a CONNECT tunnel of a MITM-enabled proxy + stack."
 	rep.Coverage["bounds"] = fmt.Sprintf("Connection: 0..2 lines, each a comma list of 1..%d tokens of {close, keep-alive, X-Foo, x-foo, ' X-Bar ', ''} (%d configurations); "+
 		"X-Foo {absent, one, two lines}, X-Bar {absent, present}; subsets of 7 fixed hop-by-hop headers (%s); 5 unlisted end-to-end headers always present; "+
 		"%d Via chains (none, foreign one/two/three lines, same pseudonym other boundary, this instance alone/first/last/protocol-name form/second line/second line with comment, and 8 whitespace variants of this instance's entry: HTAB, two SP, SP+HTAB between the fields, HTAB before a comment, OWS around the list separator, at first / middle / last position and on a second line); "+
@@ -2142,7 +2167,10 @@ func main() {
 		"pairs x 6 interleavings and triples x 90 interleavings (4 kinds in quick); user modifier behaviours 3 (request) x 6 (response); instances {martian, martian, proxy.example:8080[, martian-1, M]} paths of length <= 3 [4]; "+
 		"8 token spellings x 8 positions, token counts {1,2,7,8,9,10,15,16,17,33,64} x 3 layouts, Connection naming 7 further headers; 15 Content-Length and 24 Transfer-Encoding spellings, 23 empty-line inputs; "+
 		"3 protocol versions x 7 client addresses x 11 URLs; 155 keep-alive sequences; 12 CONNECT cases; response statuses {101, 200, 204, 206, 301, 304, 401, 407, 416, 426, 500, 502, 503} x subsets of the 7 fixed hop-by-hop headers "+
-		"(sizes 0, 1, n-1, n in quick, all 128 in thorough) x 10 Connection lists on the stack, and x {none, each alone, all} (quick) / all subsets (thorough) x 4 Connection lists through the real proxy (the origin answers with that status)", maxTokens, connCount(), strings.Join(fixedNames, ", "), nVia)
+		"(sizes 0, 1, n-1, n in quick, all 128 in thorough) x 10 Connection lists on the stack, and x {none, each alone, all} (quick) / all subsets (thorough) x 4 Connection lists through the real proxy (the origin answers with that status); "+
+		"loop_inner: 23 response behaviours of the user group (martian's status.Modifier 200/204/302/400/401/407/500/502, proxyauth.Modifier without credentials, header.Modifier, body.Modifier, hand-written redirect / 407 / 401 challenge / hop-by-hop headers, "+
+		"combinations, each of status / header / body also followed by a failing modifier) x 3 request behaviours {passive, adds a header, fails} x 18 Via chains (the 14 that name this instance, 4 that do not) [x 3 environments in thorough], a fresh NewStack per behaviour pair; "+
+		"proxy_loop_inner: 12 of the behaviours x {passive, fails} x 6 Via chains (4 loops, 2 controls) with a proxy of its own each; proxy_mitm_plain: every sequence of 1..2 of {plain, foreign chain + X-Forwarded-For, existing X-Forwarded-Proto/-Host/-Url, loop} on one tunnel (20 tunnels)", maxTokens, connCount(), strings.Join(fixedNames, ", "), nVia)
 	rep.Assumptions = []string{
 		"header keys are canonical (as net/http produces them when parsing a message); the identity (pseudonym-boundary) of the stack's Via modifier is learnt from the Via entry it stamps on a plain probe request",
 		"Proxy-Connection is not a hop-by-hop header fixed by the HTTP specification: the model accepts it removed or kept",
@@ -2154,6 +2182,8 @@ func main() {
 		"a managed header (Via, X-Forwarded-*, Content-Length) that the sender's Connection header names counts as not sent: it must not be forwarded and the stack's own stamp is still due",
 		"hop-by-hop headers a user-group modifier adds to a response must not reach the client (the user group runs before the stack's own response modifiers); what a user-group modifier adds to a request is its own business and not judged",
 		"the hop-by-hop obligations on a response do not depend on its status (a 407 or 401 from upstream is stripped like a 200); for statuses without a body (101, 204, 304) only the status and the header fields are judged; a response the proxy generated itself because net/http's client side refused the origin's (recognised by the missing X-Origin-Status marker) is counted, not judged",
+		"what the user group did to a response is observed by a recorder at the end of the user group, not predicted: a looping request must be answered 400 whatever the recorder saw, a request without a loop keeps the recorded status; a round trip skipped by the user group itself (proxyauth without credentials) is not the stack's doing",
+		"plain HTTP inside a CONNECT tunnel of a MITM-enabled proxy: the original URL is http://<Host of the request>/<request target>; the header map is judged as the last request modifier of the stack's user group sees it and as the origin receives it",
 		"a CONNECT counts as sent upstream when the target accepts a connection (direct) or the downstream proxy accepts one; 150 ms are allowed for a dial that must not happen to show up",
 	}
 	if raceRan {
